@@ -1,8 +1,8 @@
 (* C03 - Quoting any string and tokenizing it back returns exactly that string.
    This file holds only the property theorems; each is closed by [exact] of a lemma
    proved in Proofs/ and followed by Print Assumptions. *)
-From Coq Require Import List Ascii String.
-From Phil Require Import Base Tokenizer QuoteProofs.
+From Coq Require Import List Ascii String ZArith.
+From Phil Require Import Base Tokenizer Tree Parser QuoteProofs TreeRoundtrip.
 Import ListNotations.
 
 (* stand-alone value literal: exactly one word, text and quote style preserved *)
@@ -21,6 +21,15 @@ Theorem C03_in_context : forall q s rest line,
   /\ nw s0 false (quote_str q s ++ rest) line = TWord (mkword s q line) rest (line + count_nl s).
 Proof. exact value_context_quoted. Qed.
 Print Assumptions C03_in_context.
+
+(* as the value of a definition that is followed by a further definition (parser level): exactly one word,
+   the following definition intact and reported on the right line *)
+Theorem C03_in_document : forall o q s, q <> QN ->
+  parse o (s_ "a = " ++ quote_str q s ++ nl :: s_ "b = 1")
+  = Ok [Def (mkhdr (s_ "a") false 0%Z false 1 1) [mkword s q 1] [];
+        Def (mkhdr (s_ "b") false 0%Z false 2 (2 + count_nl s)) [mkword (s_ "1") QN (2 + count_nl s)] []].
+Proof. exact in_document. Qed.
+Print Assumptions C03_in_document.
 
 (* any settings record whose comment characters exclude the quote character *)
 Theorem C03_any_settings : forall σ q s rest line,
